@@ -1,9 +1,9 @@
 """C14: thread targets raise nothing; processing capacity (thread slots) is returned exactly once per request."""
 from pyvc.spec import REG as R, Raise
-from . import node, c13  # noqa
+from . import node, c13, c15  # noqa
 
-R.model("SlotQueue", builtin=True, fields={"g_put": "int", "g_got": "int"})
-R.model("AnyQueue", builtin=True, fields={"g_put": "Seq[Any]", "g_nput": "int"})
+R.model("SlotQueue", builtin=True, fields={"g_put": "int", "g_got": "int", "g_calls": "int"})
+R.model("AnyQueue", builtin=True, fields={"g_put": "Seq[Any]", "g_nput": "int", "g_ngot": "int"})
 R.model("ThreadingApplication", fields={"_recv_msg_queue": "MsgQueue", "_resp_msg_queue": "AnyQueue", "_thread_slots": "SlotQueue"})
 R.contract("SlotQueue.put", trusted=True, params={"self": "SlotQueue", "item": "None", "timeout": "int"},
            raises=[Raise("queue.Full", "True", "may")],
@@ -11,12 +11,15 @@ R.contract("SlotQueue.put", trusted=True, params={"self": "SlotQueue", "item": "
            ensures_exc={"queue.Full": ["self.g_put == old(self.g_put)"]})
 R.contract("SlotQueue.get", trusted=True, params={"self": "SlotQueue", "block": "bool"},
            raises=[Raise("queue.Empty", "True", "may")],
-           ghost_modifies=["self.g_got"], ghost_ensures=["self.g_got == old(self.g_got) + 1"],
-           ensures_exc={"queue.Empty": ["self.g_got == old(self.g_got)"]})
+           ghost_modifies=["self.g_got", "self.g_calls"],
+           ghost_ensures=["self.g_got == old(self.g_got) + 1", "self.g_calls == old(self.g_calls) + 1"],
+           ensures_exc={"queue.Empty": ["self.g_got == old(self.g_got)", "self.g_calls == old(self.g_calls) + 1"]})
 R.contract("AnyQueue.put", trusted=True, params={"self": "AnyQueue", "item": "Opt[Message]"},
            ghost_modifies=["self.g_nput"], ghost_ensures=["self.g_nput == old(self.g_nput) + 1"])
 R.contract("AnyQueue.get", trusted=True, params={"self": "AnyQueue", "block": "bool", "timeout": "int"},
-           returns="Opt[Message]", raises=[Raise("queue.Empty", "True", "may")])
+           returns="Opt[Message]", raises=[Raise("queue.Empty", "True", "may")],
+           ghost_modifies=["self.g_ngot"], ghost_ensures=["self.g_ngot == old(self.g_ngot) + 1"],
+           ensures_exc={"queue.Empty": ["self.g_ngot == old(self.g_ngot)"]})
 R.model("Thread", builtin=True, fields={"started": "bool"})
 R.contract("Thread.__new__", trusted=True, params={"target": "Any", "args": "Tuple[Message]"}, returns="Thread", allocates=True)
 R.contract("Thread.start", trusted=True, params={"self": "Thread"}, raises=[Raise("RuntimeError", "True", "may")],
@@ -37,22 +40,25 @@ R.contract("ThreadingApplication._process_recv_msg", params={"self": "ThreadingA
 R.contract("ThreadingApplication._wait_for_resp_msg", params={"self": "ThreadingApplication", "_thread": "StoppableThread"},
            requires=[("registered", "not is_none(self._node)")],
            raises=[], props=["C14"],
-           ghost_modifies=["self._thread_slots.g_got", "*MsgQueue.g_put"],
+           ghost_modifies=["self._thread_slots.g_got", "self._thread_slots.g_calls", "self._resp_msg_queue.g_ngot", "*MsgQueue.g_put"],
            modifies=["*dict:Dict[int,float]", "*deque:int", "dict:some(self._node)._sent_answers",
                      "dict:some(self._node)._origin_waiting_answer", "dict:some(self._node)._peer_waiting_answer"],
            note="response consumer thread: raises nothing whatever send_answer does")
 R.loop("ThreadingApplication._wait_for_resp_msg", 0,
        invariants=[("registered", "not is_none(self._node)")],
-       step=[("one-slot-release-attempt-per-item", "self._thread_slots.g_got <= prev(self._thread_slots.g_got) + 1")],
+       step=[("exactly-one-slot-release-attempt-per-item",
+              "self._thread_slots.g_calls - prev(self._thread_slots.g_calls) == "
+              "self._resp_msg_queue.g_ngot - prev(self._resp_msg_queue.g_ngot) and "
+              "self._resp_msg_queue.g_ngot - prev(self._resp_msg_queue.g_ngot) <= 1")],
        local_kinds={"resp_message": "Opt[Message]"},
-       modifies=["self._thread_slots.g_got", "*MsgQueue.g_put", "*dict:Dict[int,float]", "*deque:int",
-                 "dict:some(self._node)._sent_answers", "dict:some(self._node)._origin_waiting_answer",
+       modifies=["self._thread_slots.g_got", "self._thread_slots.g_calls", "self._resp_msg_queue.g_ngot", "*MsgQueue.g_put",
+                 "*dict:Dict[int,float]", "*deque:int", "dict:some(self._node)._sent_answers", "dict:some(self._node)._origin_waiting_answer",
                  "dict:some(self._node)._peer_waiting_answer"])
 R.contract("ThreadingApplication._wait_for_recv_msg", params={"self": "ThreadingApplication", "_thread": "StoppableThread"},
            requires=[("registered", "not is_none(self._node)")],
            raises=[], props=["C14"],
-           ghost_modifies=["self._thread_slots.g_got", "self._thread_slots.g_put", "*MsgQueue.g_put", "*MsgQueue.g_taken",
-                           "*Thread.started"],
+           ghost_modifies=["self._thread_slots.g_got", "self._thread_slots.g_calls", "self._thread_slots.g_put",
+                           "*MsgQueue.g_put", "*MsgQueue.g_taken", "*Thread.started"],
            modifies=["*dict:Dict[int,float]", "*deque:int", "dict:some(self._node)._sent_answers",
                      "dict:some(self._node)._origin_waiting_answer", "dict:some(self._node)._peer_waiting_answer"],
            note="receive consumer thread: raises nothing; a taken slot is either given to a started worker or released")
@@ -63,7 +69,8 @@ R.loop("ThreadingApplication._wait_for_recv_msg", 0,
               "process_message.started or self._thread_slots.g_got == prev(self._thread_slots.g_got) + 1 or "
               "self._thread_slots.g_got == prev(self._thread_slots.g_got))")],
        local_kinds={"recv_message": "Opt[Message]", "process_message": "Opt[Thread]"},
-       modifies=["self._thread_slots.g_got", "self._thread_slots.g_put", "*MsgQueue.g_put", "*MsgQueue.g_taken", "*Thread.started",
+       modifies=["self._thread_slots.g_got", "self._thread_slots.g_calls", "self._thread_slots.g_put", "*MsgQueue.g_put",
+                 "*MsgQueue.g_taken", "*Thread.started",
                  "*dict:Dict[int,float]", "*deque:int", "dict:some(self._node)._sent_answers",
                  "dict:some(self._node)._origin_waiting_answer", "dict:some(self._node)._peer_waiting_answer"])
 
